@@ -1,60 +1,102 @@
 ---- MODULE DagExec ----
-(* Execution of a finalized plan (plan.py FinalizedPlan.execute; pipeline.py visit_nodes / visit_node_generations;
-   asyncio.py async_map_dag; local.py; blockwise.py apply_blockwise; plan.py create_zarr_array, already_computed).
-   The plan is constant data; schedules, duplicates, the crash point and the resume are the behaviours. *)
+(* Execution of a finalized cubed plan, one action per critical section of the real code:
+     plan.py      FinalizedPlan.execute (validate, resume -> already_computed), create_zarr_arrays / create_zarr_array(mode="a")
+     pipeline.py  visit_nodes (topological order, skip computed), visit_node_generations
+     asyncio.py   async_map_dag (one stream per operation, drained before the next operation / generation)
+     local.py     SingleThreadedExecutor / ThreadsExecutor / ProcessesExecutor
+     blockwise.py apply_blockwise (read input blocks, compute, write each output block as one whole chunk)
+   The plan is constant data (an MC module generated per plan shape); schedules, duplicate / zombie executions
+   (retries, backups), the crash point and the resume are the behaviours TLC explores.
+
+   Design switches (cubed = TRUE, "settled", "a", "all"); every non-cubed value must make TLC report a violation
+   (vacuity test of the invariant next to it):
+     CreateFirst = FALSE      operations do not wait for create-arrays          -> NoBadRead
+     DepRule     = "started"  an operation starts when its producers have merely started -> NoBadRead
+     CreateMode  = "w"        array creation truncates existing data            -> NoWipe
+     ResumeRule  = "any"      resume trusts an array that has SOME chunk          -> SkipOnlyComplete / FinalGood
+   A plan whose Writes give one key to two tasks (misaligned layout: read-modify-write) violates SingleWriter and,
+   dynamically, FinalGood (lost update). *)
 EXTENDS Integers, Sequences, FiniteSets, TLC
-CONSTANTS Ops, Create, Arrays, Lazy, Prod, NT, Reads, Writes, Sched, MaxExec, MayCrash,
-          CreateFirst, Barrier, CreateMode, ResumeRule   \* design switches; cubed = TRUE, TRUE, "a", "all"
-VARIABLES meta, chunks, ost, ex, won, nexec, phase, ev
+CONSTANTS Ops, Create, Arrays, Lazy, Prod, NT, Reads, Writes, Sched, MaxExec, MaxDup, MayCrash,
+          CreateFirst, DepRule, CreateMode, ResumeRule
+VARIABLES meta,    \* arrays whose metadata exists in storage
+          chunks,  \* key -> None | Old | <<op, set of tasks whose part is present, "good"|"bad">>
+          ost,     \* op -> "idle" | "run" | "done" | "skip"
+          ex,      \* live task executions (records): op, t, n, pc, seen, snap
+          won,     \* op -> tasks whose result was delivered
+          nexec,   \* op -> task -> executions started
+          phase,   \* "first" | "crashed" | "resumed"
+          ev       \* callback event log (history; hidden by View)
 vars == <<meta, chunks, ost, ex, won, nexec, phase, ev>>
-None == <<"none", 0, "-">>
-Old == <<"old", 0, "-">>
+None == <<"none", {}, "-">>
+Old == <<"old", {}, "-">>
 Tasks(o) == 1..NT[o]
 WKeys(o, t) == {Writes[o][t][i] : i \in 1..Len(Writes[o][t])}
 AllKeys == UNION {UNION {WKeys(o, t) : t \in Tasks(o)} : o \in Ops \ {Create}}
 KeysOf(a) == {k \in AllKeys : k[1] = a}
 Outs(o) == {a \in Arrays : Prod[a] = o}
+Writers(k) == {t \in Tasks(Prod[k[1]]) : k \in WKeys(Prod[k[1]], t)}
 RDeps(o) == {Prod[k[1]] : k \in UNION {Reads[o][t] : t \in Tasks(o)}}
 Deps(o) == IF o = Create THEN {} ELSE RDeps(o) \cup (IF CreateFirst THEN {Create} ELSE {})
 RECURSIVE Gen(_)
-Gen(o) == IF Deps(o) = {} THEN 0 ELSE 1 + CHOOSE m \in 0..Cardinality(Ops) : (\A d \in Deps(o) : Gen(d) <= m) /\ (\E d \in Deps(o) : Gen(d) = m)
+Gen(o) == IF Deps(o) = {} THEN 0
+          ELSE 1 + CHOOSE m \in 0..Cardinality(Ops) : (\A d \in Deps(o) : Gen(d) <= m) /\ (\E d \in Deps(o) : Gen(d) = m)
 Settled(o) == ost[o] \in {"done", "skip"}
+DepOk(d) == IF DepRule = "settled" THEN Settled(d) ELSE ost[d] # "idle"
 LazySeq == CHOOSE s \in [1..Cardinality(Lazy) -> Lazy] : \A i, j \in 1..Cardinality(Lazy) : i # j => s[i] # s[j]
 
 Init == /\ meta = Arrays \ Lazy
         /\ chunks = [k \in AllKeys |-> IF k[1] \in Lazy THEN None ELSE Old]
         /\ ost = [o \in Ops |-> "idle"] /\ ex = {} /\ won = [o \in Ops |-> {}]
         /\ nexec = [o \in Ops |-> [t \in Tasks(o) |-> 0]] /\ phase = "first" /\ ev = <<>>
+\* pipeline.py / asyncio.py: sequential = the previous operation's stream is drained; generations = all earlier generations settled
 CanStart(o) == /\ ost[o] = "idle"
-               /\ \A d \in Deps(o) : Settled(d)
-               /\ (Barrier => IF Sched = "seq" THEN \A p \in Ops : ost[p] # "run"
-                              ELSE \A p \in Ops : Gen(p) < Gen(o) => Settled(p))
+               /\ \A d \in Deps(o) : DepOk(d)
+               /\ IF DepRule = "settled"
+                  THEN IF Sched = "seq" THEN \A p \in Ops : ost[p] # "run"
+                                        ELSE \A p \in Ops : Gen(p) < Gen(o) => Settled(p)
+                  ELSE TRUE
 StartOp(o) == /\ phase \in {"first", "resumed"} /\ CanStart(o) /\ ost' = [ost EXCEPT ![o] = "run"]
               /\ ev' = Append(ev, <<"opstart", o>>) /\ UNCHANGED <<meta, chunks, ex, won, nexec, phase>>
-Submit(o, t) == /\ ost[o] = "run" /\ t \notin won[o] /\ nexec[o][t] < MaxExec
+\* async_map_unordered submits every input once; retries/backups/zombies are further executions of the same task,
+\* which may outlive their operation (backup twins are never cancelled on the worker)
+RECURSIVE SumDup(_, _)
+SumDup(S, acc) == IF S = {} THEN acc ELSE LET x == CHOOSE y \in S : TRUE IN
+                     SumDup(S \ {x}, acc + (IF nexec[x[1]][x[2]] > 1 THEN nexec[x[1]][x[2]] - 1 ELSE 0))
+TotalDup == SumDup({<<o, t>> \in Ops \X (1..4) : t \in Tasks(o)}, 0)
+Submit(o, t) == /\ phase \in {"first", "resumed"} /\ ost[o] \in {"run", "done"} /\ nexec[o][t] < MaxExec
+                /\ (nexec[o][t] > 0 => TotalDup < MaxDup)   \* bound on duplicate executions in the whole plan
+                /\ (ost[o] = "done" => nexec[o][t] > 0)       \* a zombie is a duplicate of something that ran
                 /\ nexec' = [nexec EXCEPT ![o][t] = @ + 1]
-                /\ ex' = ex \cup {[op |-> o, t |-> t, n |-> nexec[o][t] + 1, pc |-> 0, seen |-> "good"]}
+                /\ ex' = ex \cup {[op |-> o, t |-> t, n |-> nexec[o][t] + 1, pc |-> 0, seen |-> "good", snap |-> {}]}
                 /\ UNCHANGED <<meta, chunks, ost, won, phase, ev>>
-Val(e) == <<e.op, e.t, e.seen>>
-GoodVal(k) == <<Prod[k[1]], CHOOSE t \in Tasks(Prod[k[1]]) : k \in WKeys(Prod[k[1]], t), "good">>
+GoodVal(k) == <<Prod[k[1]], Writers(k), "good">>
 Good(k) == chunks[k] = GoodVal(k)
+Parts(k, o) == IF chunks[k][1] = o THEN chunks[k][2] ELSE {}
 Step(e) ==
    /\ e \in ex
-   /\ IF e.op = Create THEN
+   /\ IF e.op = Create THEN       \* create_zarr_array: open-or-create
          LET a == LazySeq[e.t] IN
          /\ e.pc = 0
          /\ meta' = meta \cup {a}
          /\ chunks' = IF CreateMode = "w" THEN [k \in AllKeys |-> IF k[1] = a THEN None ELSE chunks[k]] ELSE chunks
          /\ ex' = (ex \ {e}) \cup {[e EXCEPT !.pc = 1]}
-      ELSE IF e.pc = 0 THEN      \* read all input blocks (missing metadata or chunk => fill values => wrong data)
+      ELSE IF e.pc = 0 THEN       \* read every input block (missing metadata or chunk => fill values => wrong data)
          LET bad == \E k \in Reads[e.op][e.t] : ~Good(k) \/ k[1] \notin meta IN
          /\ ex' = (ex \ {e}) \cup {[e EXCEPT !.pc = 1, !.seen = IF bad THEN "bad" ELSE "good"]}
          /\ UNCHANGED <<meta, chunks>>
       ELSE                        \* write output chunks one key at a time
          /\ e.pc <= Len(Writes[e.op][e.t])
          /\ LET k == Writes[e.op][e.t][e.pc] IN
-            chunks' = [chunks EXCEPT ![k] = IF k[1] \in meta THEN Val(e) ELSE @]
-         /\ ex' = (ex \ {e}) \cup {[e EXCEPT !.pc = @ + 1]}
+            IF Writers(k) = {e.t} THEN        \* whole-chunk write, no prior read
+               /\ chunks' = [chunks EXCEPT ![k] = IF k[1] \in meta THEN <<e.op, {e.t}, e.seen>> ELSE @]
+               /\ ex' = (ex \ {e}) \cup {[e EXCEPT !.pc = @ + 1]}
+            ELSE IF e.snap = {} THEN         \* partial chunk: zarr reads the chunk first ...
+               /\ ex' = (ex \ {e}) \cup {[e EXCEPT !.snap = Parts(k, e.op) \cup {0}]}
+               /\ UNCHANGED chunks
+            ELSE                             \* ... and writes back what it saw plus its own part
+               /\ chunks' = [chunks EXCEPT ![k] = IF k[1] \in meta THEN <<e.op, (e.snap \ {0}) \cup {e.t}, e.seen>> ELSE @]
+               /\ ex' = (ex \ {e}) \cup {[e EXCEPT !.pc = @ + 1, !.snap = {}]}
          /\ UNCHANGED meta
    /\ UNCHANGED <<ost, won, nexec, phase, ev>>
 Finished(e) == IF e.op = Create THEN e.pc = 1 ELSE e.pc = Len(Writes[e.op][e.t]) + 1
@@ -66,7 +108,9 @@ EndOp(o) == /\ ost[o] = "run" /\ won[o] = Tasks(o) /\ ost' = [ost EXCEPT ![o] = 
             /\ ev' = Append(ev, <<"opend", o>>) /\ UNCHANGED <<meta, chunks, ex, won, nexec, phase>>
 Crash == /\ MayCrash /\ phase = "first" /\ phase' = "crashed" /\ ex' = {}
          /\ UNCHANGED <<meta, chunks, ost, won, nexec, ev>>
-Complete(a) == a \in meta /\ \A k \in KeysOf(a) : IF ResumeRule = "all" THEN chunks[k] # None ELSE TRUE
+\* plan.py already_computed: every output has metadata and ALL its chunks (nchunks_initialized = nchunks)
+Complete(a) == a \in meta /\ IF ResumeRule = "all" THEN \A k \in KeysOf(a) : chunks[k] # None
+                                                   ELSE \E k \in KeysOf(a) : chunks[k] # None
 Resume == /\ phase = "crashed" /\ phase' = "resumed"
           /\ ost' = [o \in Ops |-> IF o # Create /\ \A a \in Outs(o) : Complete(a) THEN "skip" ELSE "idle"]
           /\ won' = [o \in Ops |-> {}] /\ nexec' = [o \in Ops |-> [t \in Tasks(o) |-> 0]] /\ ev' = <<>>
@@ -77,13 +121,22 @@ Next == \/ \E o \in Ops : StartOp(o) \/ EndOp(o) \/ \E t \in Tasks(o) : Submit(o
 Spec == Init /\ [][Next]_vars
 \* ---- properties
 Quiescent == phase \in {"first", "resumed"} /\ (\A o \in Ops : Settled(o)) /\ ex = {}
-NoBadRead   == \A e \in ex : e.seen = "good"                                  \* C07
-FinalGood   == Quiescent => \A k \in AllKeys : Good(k)                        \* C06 / C09 / C11
-NoWipe      == [][\A k \in AllKeys : chunks[k] # None => chunks'[k] # None]_vars   \* C09
-OnlyGoodOverwrites == [][\A k \in AllKeys : chunks[k] = GoodVal(k) => chunks'[k] = GoodVal(k)]_vars         \* C06: duplicates rewrite the same value
-SkipOnlyComplete == \A o \in Ops : ost[o] = "skip" => \A a \in Outs(o) : \A k \in KeysOf(a) : chunks[k] # None
+SingleWriter == \A k \in AllKeys : Cardinality(Writers(k)) = 1                       \* C05 (static: one writer task per chunk)
+Covered     == \A a \in Arrays : KeysOf(a) # {}                                      \* C05
+NoBadRead   == \A e \in ex : e.seen = "good"                                         \* C07
+FinalGood   == Quiescent => \A k \in AllKeys : Good(k)                                \* C05 / C06 / C09 / C11
+\* known finding F13 (taint PrefilledTargetResume): a target that held data in every chunk BEFORE the computation looks
+\* complete to resume, so its store operation is skipped and stale chunks stay.  Everything else must be good.
+StaleByF13(k) == chunks[k] = Old /\ k[1] \notin Lazy /\ ost[Prod[k[1]]] = "skip"
+FinalGoodModuloF13 == Quiescent => \A k \in AllKeys : Good(k) \/ StaleByF13(k)
+NoWipe      == [][\A k \in AllKeys : chunks[k] # None => chunks'[k] # None]_vars     \* C09
+OnlyGoodOverwrites == [][\A k \in AllKeys : chunks[k] = GoodVal(k) => chunks'[k] = GoodVal(k)]_vars   \* C06
+SkipOnlyComplete == \A o \in Ops : ost[o] = "skip" => \A a \in Outs(o) : \A k \in KeysOf(a) : chunks[k] # None   \* C09
+NoRecomputeOfComplete ==                                                              \* C09: complete arrays are not recomputed
+   [][phase = "crashed" /\ phase' = "resumed" =>
+        \A o \in Ops \ {Create} : (\A a \in Outs(o) : a \in meta /\ \A k \in KeysOf(a) : chunks[k] # None) => ost'[o] = "skip"]_vars
 Count(s, x) == Cardinality({i \in 1..Len(s) : s[i] = x})
-EventsOk == \A o \in Ops :                                                     \* C13
+EventsOk == \A o \in Ops :                                                            \* C13
    /\ Count(ev, <<"opstart", o>>) <= 1 /\ Count(ev, <<"opend", o>>) <= 1
    /\ \A t \in Tasks(o) : Count(ev, <<"taskend", o, t>>) <= 1
    /\ \A i \in 1..Len(ev) : (ev[i][1] = "taskend" /\ ev[i][2] = o) =>
